@@ -1,80 +1,46 @@
 (* C01: the pipeline assembled from the ACTUAL mirrors of the other properties
 
      Model.Includes.parse_files            (C19: file stack, include resolution)
-       -> [parse]                          the LALRPOP parser: NOT mirrored, a parameter
+       -> [parse]                          the LALRPOP parser: NOT mirrored, a parameter (the ONLY
+                                           stage parameter of the chain)
        -> Model.Desugar.desugar_template   (C18) per template / check_function per function
-       -> [skel], [table]                  adapter 1: syntax tree -> statement skeleton
-       -> Model.Lift.lift                  (C12: control_flow_graph/lifting.rs)
-       -> [ir_stmt], [ir_cond], [ir_head]  IR lifting of a simple statement / a condition /
-                                           the declarations: NOT mirrored, parameters
-       -> [ir_of_lift]                     adapter 2: skeleton graph + lifted leaves -> Model.Ir.cfg
+       -> Model.LiftFull.lift_to_ir        the content-carrying lifting mirror: ensure_unique_variables
+                                           (unique_vars.rs), try_lift_impl / build_basic_blocks
+                                           (control_flow_graph/lifting.rs), every TryLift impl
+                                           (intermediate_representation/lifting.rs), declarations.rs,
+                                           propagate_types; then the erasure onto Model.Ir
        -> Model.Dom.dominator_tree         (C15) on the predecessor / successor lists of that graph
        -> Model.Ssa.into_ssa               (C14's construction mirror)
        -> Model.Propagate.propagate        (C20/C06/C07: value and degree propagation)
 
+   From the desugared syntax tree onwards no stage is a parameter.  (Until the
+   second audit the IR lifting of a leaf was three parameters ir_stmt / ir_cond /
+   ir_head returning `option`, glued to the skeleton mirror Model.Lift by an adapter:
+   a panic of unique_vars.rs or of the catch-all arms of the TryLift impls could not
+   be expressed.  Model.LiftFull has these panic sites.)
+
    The analysis passes and the report output come after propagation and are not part
-   of this chain (no adapter from Model.Ir.cfg to the inputs of the pass mirrors of
-   C08/C09/C11 is needed: they take the same Model.Ir.cfg; they are simply not
-   composed here).  Definitions only; the theorems are in Proofs.PipelineMirrorsProofs.
+   of this chain (the pass mirrors of C08/C09/C11 take the same Model.Ir.cfg; they are
+   simply not composed here).  Definitions only; the theorems are in
+   Proofs.PipelineMirrorsProofs.  [analyse_body], [body_ok] and the hypothesis
+   predicates are extracted (coq/extract/chain.v) and run on every definition the
+   real parser + desugarer produce for the inputs of C01's engine.
 
    The other developments are referred to by qualified name: their notations
    (std++ / Base bind / Desugar bind) cannot be imported side by side. *)
 From Coq Require Import ZArith NArith List Bool String.
-Require Model.Base Model.Ast Model.Desugar Model.Lift Model.Dom Model.Ir Model.Ssa Model.Propagate Model.Includes.
+Require Model.Base Model.Ast Model.Desugar Model.Lift Model.LiftFull Model.Dom Model.Ir Model.Ssa Model.Propagate
+        Model.Justify Model.Includes.
 Import ListNotations.
 
 (* ------------------------------------------------------------------------ *)
-(* adapter 1: syntax tree -> skeleton                                        *)
+(* decidable predicates on the syntax tree                                   *)
 (* ------------------------------------------------------------------------ *)
-(* A leaf statement and a condition are numbered in source order (pre-order);
-   [table] lists them in the same order, so the number is the position.  The
-   `for` loop and the compound assignments are gone when the desugarer runs (the
-   grammar actions build while loops and plain substitutions, Model.Lift.desugar). *)
-
-Inductive node :=
-| NStmt (s : Ast.statement)                       (* a statement without sub-statements *)
-| NCond (m : Ast.meta) (c : Ast.expression).      (* the condition of the if / while statement with meta m *)
-
-Definition is_return (s : Ast.statement) : bool :=
-  match s with Ast.Return _ _ => true | _ => false end.
-
-Fixpoint size (s : Ast.statement) : nat :=
-  match s with
-  | Ast.IfThenElse _ _ t e => S (size t + match e with Some e => size e | None => 0 end)
-  | Ast.While _ _ b => S (size b)
-  | Ast.InitializationBlock _ _ l => list_sum (map size l)
-  | Ast.Block _ l => list_sum (map size l)
-  | _ => 1
-  end.
-
-Fixpoint table (s : Ast.statement) : list node :=
-  match s with
-  | Ast.IfThenElse m c t e => NCond m c :: table t ++ match e with Some e => table e | None => [] end
-  | Ast.While m c b => NCond m c :: table b
-  | Ast.InitializationBlock _ _ l => flat_map table l
-  | Ast.Block _ l => flat_map table l
-  | _ => [NStmt s]
-  end.
-
-Fixpoint skel (s : Ast.statement) (n : nat) {struct s} : Lift.sk :=
-  let fix go (l : list Ast.statement) (n : nat) {struct l} : list Lift.sk :=
-      match l with
-      | [] => []
-      | x :: r => skel x n :: go r (n + size x)
-      end in
-  match s with
-  | Ast.IfThenElse _ _ t e =>
-      Lift.SIf n (skel t (S n)) (match e with Some e => Some (skel e (S n + size t)) | None => None end)
-  | Ast.While _ _ b => Lift.SWhile n (skel b (S n))
-  | Ast.InitializationBlock _ _ l => Lift.SInit (go l n)
-  | Ast.Block _ l => Lift.SBlock (go l n)
-  | _ => Lift.SLeaf n (is_return s)
-  end.
-
 (* what the parser guarantees about initialisation blocks, as a boolean: their
    entries are declarations and (multi-)substitutions.  [ast_flat] admits every
    statement without control flow, [ast_init_ok] asks every initialisation block
-   to hold such entries only *)
+   to hold such entries only.  (The same functions as LiftFull.ast_flat /
+   LiftFull.ast_init_flat: Proofs.MirrorsShape.ast_init_ok_flat.) *)
 Fixpoint ast_flat (s : Ast.statement) : bool :=
   match s with
   | Ast.IfThenElse _ _ _ _ | Ast.While _ _ _ => false
@@ -92,28 +58,66 @@ Fixpoint ast_init_ok (s : Ast.statement) : bool :=
   | _ => true
   end.
 
-(* ------------------------------------------------------------------------ *)
-(* adapter 2: skeleton graph -> Model.Ir.cfg                                  *)
-(* ------------------------------------------------------------------------ *)
-Inductive irnode :=
-| IStmt (s : Ir.stmt)
-| ICond (m : Ir.meta) (c : Ir.expr).
-
-Fixpoint all_some {A} (l : list (option A)) : option (list A) :=
-  match l with
-  | [] => Some []
-  | Some a :: r => match all_some r with Some r' => Some (a :: r') | None => None end
-  | None :: _ => None
+(* every number literal of an expression that lifting lifts is non-negative (the
+   DECNUMBER / HEXNUMBER actions build nothing else: C01_decnumber_action_total,
+   C01_hexnumber_action_total; the desugarer adds literals 0 and 1).  This is the
+   `literals non-negative` clause of Model.Clean.clean_cfg, the first hypothesis
+   of C20_propagate_completes.  Tuples and anonymous components are never lifted
+   (site 1193) and are not looked into. *)
+Fixpoint expr_lits_ok (e : Ast.expression) {struct e} : bool :=
+  let acc_ok (a : Ast.access_of Ast.expression) :=
+    match a with Ast.ArrayAccess i => expr_lits_ok i | Ast.ComponentAccess _ => true end in
+  match e with
+  | Ast.InfixOp _ l _ r => expr_lits_ok l && expr_lits_ok r
+  | Ast.PrefixOp _ _ r => expr_lits_ok r
+  | Ast.InlineSwitchOp _ c t f => expr_lits_ok c && expr_lits_ok t && expr_lits_ok f
+  | Ast.ParallelOp _ r => expr_lits_ok r
+  | Ast.Variable_ _ _ acc => forallb acc_ok acc
+  | Ast.Number _ v => (0 <=? v)%Z
+  | Ast.Call _ _ args => forallb expr_lits_ok args
+  | Ast.ArrayInLine _ vs => forallb expr_lits_ok vs
+  | Ast.Tuple _ _ | Ast.AnonymousComponent _ _ _ _ _ _ => true
   end.
 
-(* model-only site: the numbering of [skel] and the order of [table] disagree
-   (proved unreachable, Proofs.PipelineMirrorsProofs.ir_of_lift_total) *)
-Definition site_adapter : Z := (-2)%Z.
+Definition access_lits_ok (a : Ast.access_of Ast.expression) : bool :=
+  match a with Ast.ArrayAccess i => expr_lits_ok i | Ast.ComponentAccess _ => true end.
 
+Definition logarg_lits_ok (a : Ast.log_argument) : bool :=
+  match a with Ast.LogExp e => expr_lits_ok e | Ast.LogStr _ => true end.
+
+Fixpoint stmt_lits_ok (s : Ast.statement) {struct s} : bool :=
+  match s with
+  | Ast.IfThenElse _ c t e =>
+      expr_lits_ok c && stmt_lits_ok t && match e with Some e => stmt_lits_ok e | None => true end
+  | Ast.While _ c b => expr_lits_ok c && stmt_lits_ok b
+  | Ast.Return _ v => expr_lits_ok v
+  | Ast.InitializationBlock _ _ ss => forallb stmt_lits_ok ss
+  | Ast.Declaration _ _ _ dims _ => forallb expr_lits_ok dims
+  | Ast.Substitution _ _ acc _ rhe => forallb access_lits_ok acc && expr_lits_ok rhe
+  | Ast.MultiSubstitution _ _ _ _ => true
+  | Ast.ConstraintEquality _ l r => expr_lits_ok l && expr_lits_ok r
+  | Ast.LogCall _ args => forallb logarg_lits_ok args
+  | Ast.Block _ ss => forallb stmt_lits_ok ss
+  | Ast.Assert _ a => expr_lits_ok a
+  end.
+
+(* the last clause of LiftFull.definition_wf on its own: the keys handed to
+   Declarations::add_declaration -- the parameters and the declared names AFTER the
+   renaming pass -- are pairwise different (site 2017 of declarations.rs).  Evaluated,
+   by running the renaming mirror; not derived from C10's theorem about its own mirror
+   of the renaming pass. *)
+Definition names_distinct (params : list string) (pfile : option N) (ploc : LiftFull.floc) (body : Ast.statement) : bool :=
+  match LiftFull.ensure_unique_variables params pfile ploc body with
+  | Base.Ok u => LiftFull.nodup_names (map LiftFull.vname_plain params
+                                         ++ LiftFull.names_of_lifted (LiftFull.declared_names (fst u)))
+  | _ => true
+  end.
+
+(* ------------------------------------------------------------------------ *)
+(* outcomes                                                                  *)
+(* ------------------------------------------------------------------------ *)
 Definition stage_desugar : Z := 1%Z.
-Definition stage_irlift : Z := 2%Z.
-Definition stage_lift : Z := 3%Z.
-Definition stage_adapter : Z := 4%Z.
+Definition stage_lift : Z := 3%Z.        (* renaming + lifting + IR lifting: Model.LiftFull *)
 Definition stage_dom : Z := 5%Z.
 Definition stage_ssa : Z := 6%Z.
 Definition stage_propagate : Z := 7%Z.
@@ -124,50 +128,22 @@ Inductive def_result :=
 | DRPanic (stage : Z) (site : Z)
 | DRFuel (stage : Z).
 
-Record definition_head := Head {
-  h_kind : Ir.defkind; h_params : list Ir.vname; h_decls : list (Ir.vname * Ir.vtype) }.
+(* a definition as the parser hands it on: TemplateData / FunctionData *)
+Record definition := Def {
+  d_name : string;
+  d_kind : Ir.defkind;                 (* template / custom template / function *)
+  d_params : list string;              (* parameter names *)
+  d_pfile : option N;                  (* file id ... *)
+  d_ploc : LiftFull.floc;              (* ... and location of the parameter list *)
+  d_body : Ast.statement }.
 
 Section Chain.
-  (* ---- what is not mirrored ---- *)
-  Variable ir_stmt : Ast.statement -> option Ir.stmt.                          (* None: an IR lifting error report *)
-  Variable ir_cond : Ast.meta -> Ast.expression -> option (Ir.meta * Ir.expr).
-  Variable ir_head : string -> Ast.statement -> definition_head.
   (* ---- hash orders ---- *)
   Variable ord : nat -> list nat -> list nat.      (* `for j in &idom_candidates`, Model.Dom *)
   Variable horder : list nat -> list nat.          (* iteration over a dominance frontier / a children set *)
   (* ---- configuration ---- *)
   Variable p : Z.                                  (* the prime of the curve *)
   Variable kv kd : nat.                            (* pass budgets (the 10 s time boxes) *)
-
-  Definition ir_node (nd : node) : option irnode :=
-    match nd with
-    | NStmt s => option_map IStmt (ir_stmt s)
-    | NCond m c => option_map (fun mc => ICond (fst mc) (snd mc)) (ir_cond m c)
-    end.
-
-  Definition ir_item (tbl : list irnode) (it : Lift.item) : option Ir.stmt :=
-    match it with
-    | Lift.ILeaf id =>
-        match nth_error tbl id with Some (IStmt s) => Some s | _ => None end
-    | Lift.IBranch c t f =>
-        match nth_error tbl c with
-        | Some (ICond m e) => Some (Ir.SIf m e (N.of_nat t) (option_map N.of_nat f))
-        | _ => None
-        end
-    end.
-
-  Definition ir_block (tbl : list irnode) (b : Lift.block) : option Ir.block :=
-    option_map (fun ss => {| Ir.b_index := N.of_nat (Lift.b_index b);
-                             Ir.b_depth := N.of_nat (Lift.b_depth b);
-                             Ir.b_stmts := ss;
-                             Ir.b_preds := map N.of_nat (Lift.b_preds b);
-                             Ir.b_succs := map N.of_nat (Lift.b_succs b) |})
-               (all_some (map (ir_item tbl) (Lift.b_items b))).
-
-  Definition ir_of_lift (h : definition_head) (tbl : list irnode) (g : list Lift.block) : option Ir.cfg :=
-    option_map (fun bs => {| Ir.c_kind := h_kind h; Ir.c_params := h_params h;
-                             Ir.c_decls := h_decls h; Ir.c_blocks := bs |})
-               (all_some (map (ir_block tbl) g)).
 
   (* DominatorTree::new(&self.basic_blocks) reads the predecessor and successor sets *)
   Definition dom_of_ir (c : Ir.cfg) : list Dom.node :=
@@ -205,39 +181,49 @@ Section Chain.
     | Base.OutOfFuel => DRFuel stage_dom
     end.
 
-  (* a desugared body *)
-  Definition cfg_of_body (h : definition_head) (body : Ast.statement) : Base.outcome (option Ir.cfg) :=
-    match all_some (map ir_node (table body)) with
-    | None => Base.Ok None                                    (* IR lifting error *)
-    | Some tbl =>
-        Base.bind (Lift.lift (skel body 0))
-                  (fun g => match ir_of_lift h tbl g with
-                            | Some c => Base.Ok (Some c)
-                            | None => Base.Panic site_adapter
-                            end)
-    end.
-
-  Definition analyse_body (h : definition_head) (body : Ast.statement) : def_result :=
-    match cfg_of_body h body with
-    | Base.Ok (Some c) => analyse_cfg c
-    | Base.Ok None => DRReport stage_irlift
+  (* a desugared body: renaming, lifting, IR lifting (the mirror of try_lift_impl),
+     then the rest of the chain.  An Err of the mirror is one of the two error reports
+     of lifting (InvalidVariableNameError, ParameterNameCollisionError). *)
+  Definition analyse_body (d : definition) (body : Ast.statement) : def_result :=
+    match LiftFull.lift_to_ir (d_kind d) (d_params d) (d_pfile d) (d_ploc d) body with
+    | Base.Ok c => analyse_cfg c
     | Base.Err _ => DRReport stage_lift
-    | Base.Panic s => if Z.eqb s site_adapter then DRPanic stage_adapter s else DRPanic stage_lift s
+    | Base.Panic s => DRPanic stage_lift s
     | Base.OutOfFuel => DRFuel stage_lift
     end.
 
+  (* what remains a hypothesis about a body handed to lifting, all of it decidable
+     and evaluated by the driver on every explored definition:
+       names_distinct   see above;
+       stmt_lits_ok     see above;
+       ssa_output_ok    the graph the SSA construction returns, when it returns one, has
+                        one defining assignment per local -- the second hypothesis of
+                        C20_propagate_completes *)
+  Definition ssa_output_ok (d : definition) (body : Ast.statement) : bool :=
+    match LiftFull.lift_to_ir (d_kind d) (d_params d) (d_pfile d) (d_ploc d) body with
+    | Base.Ok c =>
+        match ssa_of c with
+        | Base.Ok (_, Ssa.SOk c1) => Justify.ldefs_unique (Justify.all_stmts (Ir.c_blocks c1))
+        | _ => true
+        end
+    | _ => true
+    end.
+
+  Definition body_ok (d : definition) (body : Ast.statement) : bool :=
+    names_distinct (d_params d) (d_pfile d) (d_ploc d) body && stmt_lits_ok body && ssa_output_ok d body.
+
   Definition analyse_template (env : list (string * Desugar.template_info)) (lib : list (list N))
-             (t : string * Ast.statement) : def_result :=
-    match Desugar.desugar_template env lib (snd t) with
-    | Desugar.DOk body => analyse_body (ir_head (fst t) body) body
+             (t : definition) : def_result :=
+    match Desugar.desugar_template env lib (d_body t) with
+    | Desugar.DOk body => analyse_body t body
     | Desugar.DErr _ => DRReport stage_desugar
     | Desugar.DPanic s => DRPanic stage_desugar s
     | Desugar.DOutOfFuel => DRFuel stage_desugar
     end.
 
-  Definition analyse_function (f : string * Ast.statement) : def_result :=
-    match Desugar.check_function (snd f) with
-    | Desugar.DOk None => analyse_body (ir_head (fst f) (snd f)) (snd f)
+  Definition analyse_function (f : definition) : def_result :=
+    match Desugar.check_function (d_body f) with
+    | Desugar.DOk None => analyse_body f (d_body f)
     | Desugar.DOk (Some _) => DRReport stage_desugar
     | Desugar.DErr _ => DRReport stage_desugar
     | Desugar.DPanic s => DRPanic stage_desugar s
@@ -246,11 +232,14 @@ Section Chain.
 
   Record program := Program {
     pr_lib : list (list N);                          (* FileLibrary: per file id the line starts *)
-    pr_templates : list (string * Ast.statement);
-    pr_functions : list (string * Ast.statement) }.
+    pr_templates : list definition;
+    pr_functions : list definition }.
+
+  Definition named_bodies (l : list definition) : list (string * Ast.statement) :=
+    map (fun d => (d_name d, d_body d)) l.
 
   Definition analyse_program (pr : program) : list def_result :=
-    map (analyse_template (Desugar.env_of (pr_templates pr)) (pr_lib pr)) (pr_templates pr) ++
+    map (analyse_template (Desugar.env_of (named_bodies (pr_templates pr))) (pr_lib pr)) (pr_templates pr) ++
     map analyse_function (pr_functions pr).
 
   (* ---- the file stage in front ---- *)
